@@ -141,7 +141,7 @@ def run_behaviour(ctx, env, beh, name, base, on_step=None):
             obs_state = env.project([k for k in exp_state if k not in replay.UNOBSERVABLE])
             d = replay.diff_states(exp_state, obs_state)
             if d:
-                props = sorted({replay.FIELD_PROP.get(f[0], "C04") for f in d})
+                props = sorted({replay.FIELD_PROP.get(f[0], "C04") for f in d} | ({"C01", "C02"} if op["name"] == "reload" else set()))
                 return n, {"kind": "state", "props": props, "op": hist[-1],
                            "expected": [list(x[:3]) for x in d[:8]], "observed": [[x[0], x[1], x[3]] for x in d[:8]],
                            "history": hist,
